@@ -98,15 +98,21 @@ func vC10FsFile(fs CollectionFileSystem, w *vC10World, p string, rnd *rand.Rand)
 	// the segments loadManifest built
 	if fh, ok := f.(*filehandle); ok {
 		if fn, ok := fh.inode.(*filenode); ok {
-			segs := [][]int{}
+			// (internal representation: observed only while it is the value type this driver knows; anything
+			// else is reported as drift by the check and the byte-level reads below decide - audit C10-3)
+			segs, known := [][]int{}, true
 			for _, sg := range fn.segments {
 				if ss, ok := sg.(storedSegment); ok {
 					segs = append(segs, []int{w.idOfLocator(ss.locator), ss.offset, ss.length})
 				} else {
-					segs = append(segs, []int{9998, 0, sg.Len()})
+					known = false
 				}
 			}
-			obs = append(obs, vC10Ev{"via": "segments", "start": 0, "n": -1, "segs": segs})
+			if known {
+				obs = append(obs, vC10Ev{"via": "segments", "start": 0, "n": -1, "segs": segs})
+			} else {
+				ev["segtype_unknown"] = true
+			}
 		}
 	}
 	// whole file through the API
@@ -137,28 +143,61 @@ func vC10FsFile(fs CollectionFileSystem, w *vC10World, p string, rnd *rand.Rand)
 	return ev
 }
 
+// vC10FsReadAll: outcome of reading one whole file: {"kind":"ok"|"error"|"panic","n":bytes delivered}
+func vC10FsReadAll(fs CollectionFileSystem, p string) (r vC10Ev) {
+	r = vC10Ev{"kind": "ok", "n": 0}
+	defer func() {
+		if x := recover(); x != nil {
+			r["kind"], r["detail"] = "panic", fmt.Sprint(x)
+		}
+	}()
+	f, err := fs.Open(p)
+	if err != nil {
+		r["kind"] = "error"
+		return
+	}
+	defer f.Close()
+	data, err := io.ReadAll(f)
+	r["n"] = len(data)
+	if err != nil {
+		r["kind"] = "error"
+	}
+	return
+}
+
 func vC10FsRun(s *vC10Scenario) (evs []vC10Ev) {
 	w := vC10NewWorld(s.Streams)
 	text := w.render(s.Streams, false)
 	if s.Mut != "" {
 		text = vC10Mutate(text, s.Streams, s.Mut, s.MutArg)
-		_, kind, detail := vC10FsLoad(text, vC10Keep{w})
-		return append(evs, vC10Ev{"ev": "load", "kind": kind, "detail": detail, "paths": [][]int{}})
+		fs, kind, detail := vC10FsLoad(text, vC10Keep{w})
+		// a loader may also report a malformed token lazily, when the file is read (audit C10-7): read everything
+		reads := []vC10Ev{}
+		if kind == "ok" {
+			var paths []string
+			if err := vC10FsWalk(fs, "", &paths); err != nil {
+				reads = append(reads, vC10Ev{"kind": "error", "n": 0})
+			}
+			for _, p := range paths {
+				reads = append(reads, vC10FsReadAll(fs, p))
+			}
+		}
+		return append(evs, vC10Ev{"ev": "load", "kind": kind, "detail": detail, "paths": [][]int{}, "reads": reads})
 	}
 	fs, kind, detail := vC10FsLoad(text, vC10Keep{w})
 	if kind != "ok" {
-		return append(evs, vC10Ev{"ev": "load", "kind": kind, "detail": detail, "paths": [][]int{}})
+		return append(evs, vC10Ev{"ev": "load", "kind": kind, "detail": detail, "paths": [][]int{}, "reads": []vC10Ev{}})
 	}
 	var paths []string
 	if err := vC10FsWalk(fs, "", &paths); err != nil {
-		return append(evs, vC10Ev{"ev": "load", "kind": "error", "detail": "walk: " + err.Error(), "paths": [][]int{}})
+		return append(evs, vC10Ev{"ev": "load", "kind": "error", "detail": "walk: " + err.Error(), "paths": [][]int{}, "reads": []vC10Ev{}})
 	}
 	sort.Strings(paths)
 	lst := [][]int{}
 	for _, p := range paths {
 		lst = append(lst, vC10Bytes("."+p))
 	}
-	evs = append(evs, vC10Ev{"ev": "load", "kind": "ok", "paths": lst})
+	evs = append(evs, vC10Ev{"ev": "load", "kind": "ok", "paths": lst, "reads": []vC10Ev{}})
 	rnd := rand.New(rand.NewSource(s.RSeed))
 	for _, p := range paths {
 		evs = append(evs, vC10FsFile(fs, w, p, rnd))
